@@ -296,8 +296,31 @@ def make_curves (c):
     rng  = np.random.default_rng ([c ['seed'], 127, c ['i']])
     R    = float (10 ** rng.uniform (-0.5, 1))
     rw   = 1e-4 * R
-    kind = str (rng.choice (['chord', 'chord', 'two', 'three', 'open']))
+    kind = str (rng.choice (['chord', 'chord', 'two', 'three', 'open', 'cone']))
     geo  = []
+    if kind == 'cone':
+        # a helix that narrows (its last segments are its shortest) and a wire that ends half a matching distance, or two
+        # and a half, from its narrow end: the distance is 1/1000 of the shortest segment of the structure
+        n  = int (rng.integers (20, 41))
+        h  = dict (k = 'h', n = n, length = R, turn = float (R * rng.uniform (0.15, 0.3)), r = rw, rx1 = 0.5 * R, ry1 = 0.5 * R, rx2 = 0.05 * R, ry2 = 0.05 * R, tag = None)
+        if rng.random () < 0.5:
+            h ['rx1'], h ['rx2'] = h ['rx2'], h ['rx1']
+            h ['ry1'], h ['ry2'] = h ['ry2'], h ['ry1']
+        nd = georef.nodes_of (h)
+        sl = [float (np.linalg.norm (b - a)) for a, b in zip (nd [:-1], nd [1:])]
+        e  = 0 if sl [0] < sl [-1] else -1
+        u  = np.array ([0.3, -0.5, 0.81]) * (1 if e == -1 else -1)
+        u  = u / np.linalg.norm (u)
+        g  = float (rng.choice ([0.5, 2.5])) * 1e-3 * min (sl)
+        a  = nd [e] + u * g
+        nw = int (rng.integers (2, 5))
+        w  = gen.wire (nw, a, a + u * nw * 1.2 * max (sl), rw)      # (the wire's segments are the longest of the structure)
+        if rng.random () < 0.5:
+            w ['p1'], w ['p2'] = w ['p2'], w ['p1']
+        geo = [h, w]
+        if rng.random () < 0.5:
+            h ['tag'], w ['tag'] = (1, 2) if rng.random () < 0.5 else (5, 3)
+        return dict (f = 7.0, geo = geo, tr = [], sc = [], media = None, src = [], loads = [], fam = 'curves-cone', mode = 'cone%g' % (g / (1e-3 * min (sl))))
     def P (a):
         a = np.radians (a)
         return [R * float (np.cos (a)), 0.0, R * float (np.sin (a))]
